@@ -92,6 +92,36 @@ Definition field_example_stmt : Prop :=
 Lemma field_example : field_example_stmt.
 Proof. vm_compute. repeat split; reflexivity. Qed.
 
+(* error 503 "gone";  with ctx.ObjectStatus / ctx.ObjectResponse as ctx cells 0 / 1: they become 503 / "gone",
+   var.v0 keeps 5, the statement ends with the state error *)
+Definition σ_err : state :=
+  {| heap := [VInt 500 false; VStr [] true false; VInt 5 false]; locals := [(0%N, 2%nat)];
+     globals := [(0%N, 0%nat); (1%N, 1%nat)]; groups := []; hdrs := []; logs := []; depth := 0; trace := [] |}.
+Definition error_example_stmt : Prop :=
+  match exec repaired std_ops [] 20 false
+          (SError true 0 1 (Some (ELit (VInt 503 true))) (Some (ELit (VStr [Byte.x67] false true)))) σ_err with
+  | OK (OState st, σ') =>
+      st = st_error /\ read σ' (NGlobal 0) = Some (VInt 503 false) /\
+      read σ' (NGlobal 1) = Some (VStr [Byte.x67] false false) /\ read σ' (NLocal 0) = Some (VInt 5 false)
+  | _ => False
+  end.
+Lemma error_example : error_example_stmt.
+Proof. vm_compute. repeat split; reflexivity. Qed.
+
+(* add req.http.h0 = "x"; add req.http.h0 = "y";  the header reads "x" (the first value), h1 is untouched *)
+Definition add_example_stmt : Prop :=
+  match exec repaired std_ops [] 20 false (SAdd 0 0 (ELit (VStr [Byte.x78] false true))) σ_ab with
+  | OK (ONorm, σ1) =>
+    match exec repaired std_ops [] 20 false (SAdd 0 0 (ELit (VStr [Byte.x79] false true))) σ1 with
+    | OK (ONorm, σ2) => read σ2 (NHeader 0 0) = Some (VStr [Byte.x78] false false) /\
+                        read σ2 (NHeader 0 1) = Some (VStr [] true false)
+    | _ => False
+    end
+  | _ => False
+  end.
+Lemma add_example : add_example_stmt.
+Proof. vm_compute. repeat split; reflexivity. Qed.
+
 (* BEFORE the repair of unary minus: evaluating -var.v0 changes var.v0 *)
 Lemma neg_in_place_refutes :
   exists n m e σ l σ',
